@@ -584,6 +584,8 @@ def overrides(ch, prog, natives=None, wide=True):
             continue
         if n in intpos:
             env[n] = ch.int(0, 7)
+            if ch.int(0, 3) == 0:
+                env[n] = float(env[n])  # override dictionaries are documented as dict[str, float]
         else:
             env[n] = ch.pick([ch.int(-4, 9), ch.pick([0.5, -1.25, 3.0, 1e-06, 2.5e-05]), ch.float() if wide else ch.small_number()])
     for n in list(env):
